@@ -610,6 +610,20 @@ class Interp:
                 # next(<generator expression>, default): the generator was evaluated eagerly (its conditions have no side effects
                 # in the vocabulary), the first element is what next() would produce
                 return args[0][0] if args[0] else args[1]
+            if nm == "next" and len(args) in (1, 2) and isinstance(args[0], ModelIter):
+                try:
+                    return next(args[0].py)
+                except StopIteration:
+                    if len(args) == 2:
+                        return args[1]
+                    raise ModelRaise("StopIteration()")
+            if nm == "count" and len(args) <= 2 and all(isinstance(a, int) and not isinstance(a, bool) for a in args):
+                import itertools as _it
+                return ModelIter(_it.count(*args))
+            if nm == "divmod" and len(args) == 2 and all(isinstance(a, int) and not isinstance(a, bool) for a in args):
+                if args[1] == 0:
+                    raise ModelRaise("ZeroDivisionError()")
+                return divmod(args[0], args[1])
             if nm == "iter" and len(args) == 1 and isinstance(args[0], (list, tuple, ModelIter)):
                 return args[0] if isinstance(args[0], ModelIter) else ModelIter(iter(list(args[0])))
             if nm == "iter" and len(args) == 2 and isinstance(args[0], tuple) and args[0] and args[0][0] == "lambda":
@@ -656,6 +670,9 @@ class Interp:
             if nm == "str" and len(args) == 1 and (isinstance(args[0], (int, str)) or args[0] is None):
                 return str(args[0])
             self.fail(e, f"call of {nm}")
+        if isinstance(fn, ast.Attribute) and isinstance(fn.value, ast.Name) and fn.value.id == "itertools" and "itertools" not in env and fn.attr in ("count", "islice", "chain"):
+            # itertools.count(...) is count(...)
+            return self.call(ast.copy_location(ast.Call(func=ast.copy_location(ast.Name(id=fn.attr, ctx=ast.Load()), fn), args=e.args, keywords=e.keywords), e), env)
         if isinstance(fn, ast.Attribute):
             # logging is outside the model
             p = _path(fn) or ""
